@@ -23,8 +23,6 @@ open PdfVerif PdfVerif.SimpleFont PdfVerif.SimpleFont.Spec
 structure TablesOK (T : Tables) : Prop where
   /-- no glyph-list entry has an empty value -/
   glyphs : GlyphListOK T.gl
-  /-- the empty string is not a glyph name -/
-  emptyName : glLookup T.gl [] = none
   /-- every glyph name of the ENCODING rows has a value … -/
   rowsResolve : RowsResolve T.gl T.rows
   /-- … and is an ordinary name (no lenient component, no partially unknown components) -/
@@ -103,19 +101,9 @@ theorem builtin_text (T : Tables) (hT : TablesOK T) (ff : FontFile) (code : Int)
       | none => none := by
   unfold builtinEncoding builtinName at *
   rw [tlookup_putsEncoding]
-  cases hloop : ff.notdefLoop
-  · simp only [Bool.false_eq_true, if_false, List.nil_append]
-    cases hl : lastAssigned ff.puts code with
-    | some nm => exact agl_grammar T.gl hT.glyphs nm (hj nm hl)
-    | none => simp [tlookup_nil]
-  · simp only [if_true, List.singleton_append, lastAssigned_cons]
-    cases hl : lastAssigned ff.puts code with
-    | some nm => exact agl_grammar T.gl hT.glyphs nm (hj nm hl)
-    | none =>
-      by_cases h1 : (1 : Int) = code
-      · subst h1
-        simp [name2unicode_notdef T.gl hT.emptyName]
-      · simp [h1, tlookup_nil]
+  cases hl : lastAssigned ff.puts code with
+  | some nm => exact agl_grammar T.gl hT.glyphs nm (hj nm hl)
+  | none => simp [tlookup_nil]
 
 /-- What the font's encoding gives a code (judged glyph names). -/
 theorem encoding_text (T : Tables) (hT : TablesOK T) (fd : FontDict) (code : Int)
@@ -268,7 +256,7 @@ theorem type3_scale (T : Tables) (fd : FontDict) (code : Int) (h3 : fd.isType3 =
 /-- The tables regenerated from glyphlist.py / latin_enc.py satisfy the table facts (kernel computation over
 the 4 281 glyph-list entries and the 232 ENCODING rows, `Lemmas/SimpleFontInst.lean`). -/
 theorem tables_ok : TablesOK Inst.tables :=
-  ⟨Inst.glyphs_ok, Inst.glyphs_emptyName, Inst.rows_resolve, Inst.rows_judged⟩
+  ⟨Inst.glyphs_ok, Inst.rows_resolve, Inst.rows_judged⟩
 
 /-- The font the driver (and the correspondence check) builds is `modelFont` on the regenerated tables. -/
 theorem modelFont_pdfminer (fd : FontDict) :
@@ -290,6 +278,47 @@ theorem C06_width_precedence_pdfminer (fd : FontDict) (code : Int)
     (hj : judgedCode Inst.tables fd code = true) :
     glyphAdv (build Inst.glyphs Inst.encDB Inst.metrics fd) code = specWidth Inst.tables fd code :=
   C06_width_precedence Inst.tables tables_ok fd code hj
+
+/-! ## Embedded Type 1 programs as bytes -/
+
+/-- The property for a font dictionary whose FontFile is given as the bytes of the stream: when the
+clear-text header can be read (`judgedRaw`), construction succeeds and text and advance of every judged code
+are the specified ones, where the built-in encoding is what the tokeniser (`Lexer.specLex`, proved equal
+to the buffered tokeniser at every buffer size in C14) and `Type1FontHeaderParser`'s stack machine extract. -/
+theorem C06_raw_precedence (T : Tables) (hT : TablesOK T) (raw : RawFontDict) (code : Int)
+    (hj : judgedRaw T raw code = true) :
+    ∃ f, buildRaw T.gl (dbOf T) T.fm raw = .ok f ∧
+      specRaw T raw code = some (glyphText f code, glyphAdv f code) := by
+  unfold judgedRaw at hj
+  unfold buildRaw specRaw
+  cases hr : resolveFontFile T.fm raw with
+  | error e => simp [hr] at hj
+  | ok fd =>
+    simp only [hr] at hj
+    refine ⟨build T.gl (dbOf T) T.fm fd, rfl, ?_⟩
+    have h1 := C06_text_precedence T hT fd code hj
+    have h2 := C06_width_precedence T hT fd code hj
+    simp only [modelFont] at h1 h2
+    rw [h1, h2]
+
+/-- The header is read only for a non-Type3, non-standard-14 font without Encoding entry: otherwise the
+FontFile bytes - however malformed - have no influence (and cannot make construction fail). -/
+theorem header_ignored (T : Tables) (raw : RawFontDict) (h : headerToRead T.fm raw = none) :
+    buildRaw T.gl (dbOf T) T.fm raw = .ok (build T.gl (dbOf T) T.fm (raw.withFontFile none)) := by
+  simp [buildRaw, resolveFontFile, h]
+
+deriving instance DecidableEq for Except
+
+/-- A synthetic header (comment holding a `put`, `#5F` escape, CR LF, a `(put)` string, a real-number key, the
+`.notdef` loop scanned as one `put` under key 1, a procedure) read by the tokeniser + stack machine, in the kernel. -/
+def exampleHeader : Bytes := [37, 33, 80, 83, 45, 65, 100, 111, 98, 101, 70, 111, 110, 116, 45, 49, 46, 48, 58, 32, 83, 121, 110, 116, 104, 32, 48, 48, 49, 46, 48, 48, 49, 10, 49, 49, 32, 100, 105, 99, 116, 32, 98, 101, 103, 105, 110, 10, 47, 70, 111, 110, 116, 66, 66, 111, 120, 32, 123, 48, 32, 45, 50, 48, 48, 32, 49, 48, 48, 48, 32, 56, 48, 48, 125, 32, 114, 101, 97, 100, 111, 110, 108, 121, 32, 100, 101, 102, 10, 47, 69, 110, 99, 111, 100, 105, 110, 103, 32, 50, 53, 54, 32, 97, 114, 114, 97, 121, 10, 48, 32, 49, 32, 50, 53, 53, 32, 123, 49, 32, 105, 110, 100, 101, 120, 32, 101, 120, 99, 104, 32, 47, 46, 110, 111, 116, 100, 101, 102, 32, 112, 117, 116, 125, 32, 102, 111, 114, 10, 100, 117, 112, 32, 54, 53, 32, 47, 65, 32, 112, 117, 116, 32, 37, 32, 100, 117, 112, 32, 54, 54, 32, 47, 66, 32, 112, 117, 116, 10, 100, 117, 112, 32, 54, 54, 32, 47, 117, 110, 105, 50, 48, 65, 67, 32, 112, 117, 116, 13, 10, 100, 117, 112, 32, 54, 55, 32, 47, 102, 35, 53, 70, 105, 32, 112, 117, 116, 10, 100, 117, 112, 32, 54, 53, 32, 47, 103, 49, 50, 51, 32, 112, 117, 116, 10, 40, 112, 117, 116, 41, 32, 51, 46, 53, 32, 47, 88, 32, 112, 117, 116, 10, 114, 101, 97, 100, 111, 110, 108, 121, 32, 100, 101, 102, 10, 99, 117, 114, 114, 101, 110, 116, 100, 105, 99, 116, 32, 101, 110, 100, 10, 99, 117, 114, 114, 101, 110, 116, 102, 105, 108, 101, 32, 101, 101, 120, 101, 99, 10]
+
+theorem exampleHeader_puts :
+    t1Puts exampleHeader = .ok [(1, some ['.', 'n', 'o', 't', 'd', 'e', 'f']), (65, some ['A']), (66, some ['u', 'n', 'i', '2', '0', 'A', 'C']), (67, some ['f', '_', 'i']), (65, some ['g', '1', '2', '3'])] := by
+  decide +kernel
+
+/-- A `put` without two operands makes `get_encoding` (and font construction) raise `ValueError`. -/
+theorem put_underflow_raises : t1Puts [112, 117, 116, 32] = .error "ValueError" := by decide +kernel
 
 /-! ## The excluded region is really excluded: pdfminer's deliberate deviations from AGL -/
 
@@ -325,7 +354,7 @@ def T0 : Tables :=
     fm := [("Helvetica", [(65, 667), (32, 278)])] }
 
 theorem example_tables_ok : TablesOK T0 := by
-  refine ⟨?_, by decide, ?_, ?_⟩
+  refine ⟨?_, ?_, ?_⟩
   · intro e he; simp [T0, gl0] at he; rcases he with rfl | rfl | rfl | rfl <;> simp
   · intro r hr; simp [T0] at hr; rcases hr with rfl | rfl | rfl <;> decide
   · intro r hr; simp [T0] at hr; rcases hr with rfl | rfl | rfl <;> decide
